@@ -556,6 +556,18 @@ func (ts *TermStore) Eq(a, b *Term) *Term {
 			}
 		}
 	}
+	// x+c1 == x+c2, x == x+c
+	if a.op == OpAdd && a.b.op == OpConst {
+		if b.op == OpAdd && b.b.op == OpConst && a.a == b.a {
+			return ts.Bool(a.b.val == b.b.val)
+		}
+		if a.a == b {
+			return ts.Bool(a.b.val == 0)
+		}
+	}
+	if b.op == OpAdd && b.b.op == OpConst && b.a == a {
+		return ts.Bool(b.b.val == 0)
+	}
 	if a.id > b.id && b.op != OpConst {
 		a, b = b, a
 	}
